@@ -47,6 +47,9 @@ CLAIMED = {
  "C12": ("dependence signature of the released amount, same-value check pooled=sent, commit-path guard analysis of pulls and deletes with role-typed time/balance predicates, constructor key provenance",
          "the gauge->module amount depends on Start, End, Coins, block time and the gauge balance and is what is added to the pool; pulls only behind End>=now, End>Start, non-empty balance; deletes only behind an empty balance or a sweep (one known finding: ended gauges are deleted undrained); gauge id provenance (one known finding: id collision within a block). The linear formula, monotonicity and rounding are not decided.",
          "DESIGN.md §5 C12"),
+ "C07": ("store-effect model of plan-record writers and file removers, must-pass-through path search, commit-path guard analysis of the charge, record-field provenance and subtraction-shape check, ValidateBasic lower-bound analysis",
+         "file removal returns size×replication to the owner's plan on every plan-paid removal path; the charge is behind plan found / not expired / within purchased space, never on the pay-once branch, and happens on every committing plan-paid path with the right operands; size and replication are validated positive at the door; a purchase carries usage over and refuses plans below it. The history-level equality usage = Σ footprints is not decided.",
+         "DESIGN.md §5 C07"),
 }
 NA = {}
 props = [json.loads(l) for l in open('properties.jsonl')]
